@@ -181,7 +181,7 @@ def main(tier, seed):
 
     # ---- 3. prep: loadings, coverages, chosen slit widths (spec)
     live = [s for s in chosen if s["h"] in adsorbents]
-    preps = tlc.oracle("HKOracle", [{"k": "prep", "fam": s["fam"], "npts": s["npts"], "perm": s["perm"], "a": adsorbates[s["a"]]["enc"], "h": adsorbents[s["h"]]["enc"]}
+    preps = tlc.oracle("HKOracle", [{"k": "prep", "geo": s["geo"], "fam": s["fam"], "npts": s["npts"], "perm": s["perm"], "a": adsorbates[s["a"]]["enc"], "h": adsorbents[s["h"]]["enc"]}
                                     for s in live], timeout=600)
 
     # ---- 4. slit HK / HK-CY: pressures from the published equation (spec)
@@ -233,6 +233,8 @@ def main(tier, seed):
                     phi = numpy.sort(numpy.array([f(x) for x in grid]))
                     phi = phi + 1e-9 * numpy.arange(N)
                     phi = phi[numpy.array(p["pi"]) - 1]       # order of presentation chosen by the spec
+                    if p["over"]:
+                        phi[p["over"] - 1] = f(dec_dec(p["overL"]))     # a pore far beyond the range in the middle (spec "over")
                     lnp = phi - corr
                 cap.fake = False
                 pressure = numpy.exp(lnp)
@@ -245,6 +247,8 @@ def main(tier, seed):
                     run.add("runs_with_increasing_pressure_and_decreasing_solution")      # Cheng-Yang near saturation
                 if not increasing:
                     run.add("runs_with_non_monotone_pressures")
+                if p["over"]:
+                    run.add("runs_with_a_point_beyond_the_size_cutoff")
                 entry = "raw"
                 # the isotherm entry point needs an adsorption branch (increasing pressures)
                 use_api = increasing and bool(numpy.all(pressure < 0.999)) and pick(s["id"] + 5, seed, 4)
@@ -307,7 +311,7 @@ def main(tier, seed):
             aenc = {"d": enc(ao.get_prop("molecular_diameter")), "alpha": enc(ao.get_prop("polarizability")), "chi": enc(ao.get_prop("magnetic_susceptibility")),
                     "ns": enc(ao.get_prop("surface_density")), "rho": enc(direct["rhoLmass"]), "M": enc(direct["M"])}
             cfgs.append({"ads": c["ads"], "obj": ao, "T": T, "Tenc": c["T"], "a": aenc})
-        hp = tlc.oracle("HKOracle", [{"k": "prep", "fam": "lin", "npts": 10, "perm": "id", "a": c["a"], "h": Hc["enc"]} for c in cfgs], timeout=300)
+        hp = tlc.oracle("HKOracle", [{"k": "prep", "geo": "slit", "fam": "lin", "npts": 10, "perm": "id", "a": c["a"], "h": Hc["enc"]} for c in cfgs], timeout=300)
         hs = tlc.oracle("HKOracle", [{"k": "slit", "L": pr["L"], "n": pr["n"], "a": c["a"], "h": Hc["enc"], "T": c["Tenc"], "cy": False,
                                       "ln1m": [enc(math.log1p(-dec_dec(x))) for x in pr["theta"]]} for c, pr in zip(cfgs, hp)], timeout=300)
         nhist = 0
